@@ -255,8 +255,8 @@ struct cfg
 	int body, nthr, var, bound_q, bound_t;
 };
 static const struct cfg CFGS[] = {
-    {1, 2, 0, 2, 4}, {1, 2, 1, 2, 4}, {1, 3, 0, 1, 3}, {2, 2, 0, 2, 4}, {2, 2, 1, 2, 4}, {2, 3, 0, 1, 3}, {3, 2, 0, 2, 4},
-    {3, 3, 0, 1, 2}, {4, 2, 0, 2, 4}, {4, 3, 0, 1, 3}, {5, 2, 0, 1, 2}, {1, 3, 1, 1, 2}, {2, 3, 1, 1, 2}, {3, 2, 1, 2, 3},
+    {1, 2, 0, 2, 5}, {1, 2, 1, 2, 5}, {1, 3, 0, 1, 4}, {2, 2, 0, 2, 5}, {2, 2, 1, 2, 5}, {2, 3, 0, 1, 4}, {3, 2, 0, 2, 5},
+    {3, 3, 0, 1, 3}, {4, 2, 0, 2, 5}, {4, 3, 0, 1, 4}, {5, 2, 0, 1, 3}, {1, 3, 1, 1, 3}, {2, 3, 1, 1, 3}, {3, 2, 1, 2, 4},
 };
 #define NCFG (int)(sizeof CFGS / sizeof CFGS[0])
 
